@@ -13,6 +13,15 @@ process; per-name results equal under permuted dict / table order and different
 current seeds; listed streams get table[name][r]; unlisted streams get what
 the fallback updater alone assigns; refused replication numbers raise and leave
 the refused streams unchanged; first draws equal random.Random(seed).
+
+Second tie: on every run the bodies of SimpleStreamUpdater.update_seed,
+StreamSeedUpdater.update_seed and StreamUpdater.update_seeds are translated from
+the source text of the tree under test (translator/py2gallina_streams.py,
+fail-closed) and coq/Streams/GenAgree.v proves the translated definitions equal
+to the hand-written model; the last section of Props/C13.v is re-checked against
+them (c12lib.StreamsTree).  When that tie breaks, more configurations are
+searched with the oracle for a concrete failing input; only if none is found
+the line ends no-failing-input-found.
 """
 from __future__ import annotations
 
@@ -23,9 +32,11 @@ from pathlib import Path
 
 sys.path.insert(0, str(Path(__file__).resolve().parent))
 import common as C
+import c12lib as L
 
 PID = "C13"
-TARGETS = ["Streams/SeedsProofs.vo", "Props/C13.vo"]
+# built in coq/ (independent of the source text); Gen_Streams / GenAgree / Props are compiled per tree (c12lib.StreamsTree)
+TARGETS = ["Streams/SeedsProofs.vo"]
 DRIVER = Path(__file__).resolve().parent / "c13_impl.py"
 N_BAD_KEYS, N_BAD_STREAMS, N_ILL_R = 5, 4, 5
 
@@ -359,7 +370,13 @@ def run_children(cases, hashseeds, timeout=600):
 
 def main(tier: str) -> int:
     run = C.Run(PID, tier)
-    proofs_ok = run.check_proofs(TARGETS, extra_tb=[
+    try:
+        tree = L.StreamsTree().prepare()
+    except Exception as exc:  # noqa
+        run.violation("translated-model-not-buildable", f"the model could not be regenerated from the source: {type(exc).__name__}: {exc}",
+                      {"unchecked": "coq/Streams/GenAgree.v"}, found_input=False)
+        return run.finish()
+    proofs_ok = L.check_proofs(run, tree, TARGETS, extra_tb=[
         "the interpreter's per-process str hash is a parameter H of the pinned model (refuted clause); the repaired code's name hash "
         "is transcribed in Gallina (Streams.Seeds.str_hash) and executed in the correspondence",
         "every configuration is evaluated in several child interpreters with different PYTHONHASHSEED; that these cover the "
@@ -397,69 +414,76 @@ def main(tier: str) -> int:
     nontriv = set()
     hist = {"update_seeds": 0, "update_seed": 0, "accepted": 0, "TypeError": 0, "ValueError": 0, "other_exception": 0,
             "simple": 0, "table_fb_simple": 0, "table_fb_custom": 0, "table_fb_nested": 0}
-    for idx, case in enumerate(cases):
-        res = base[idx]
-        u = case["updater"]
-        hist["simple" if u["kind"] == "simple" else "table_fb_" + u["fb"]["kind"]] += 1
-        for c, ob in zip(case["calls"], res["obs"]):
-            hist["update_seeds" if "all" in c else "update_seed"] += 1
-            hist["accepted" if ob["exc"] is None else ob["exc"] if ob["exc"] in ("TypeError", "ValueError") else "other_exception"] += 1
-        # (1) the same in every process
-        for k in range(1, len(per_child)):
-            o = per_child[k][idx]
-            if o["obs"] != res["obs"] or o["draws"] != res["draws"]:
-                ci = next(i for i in range(len(res["obs"])) if o["obs"][i] != res["obs"][i]) if o["obs"] != res["obs"] else 0
-                si = next((i for i in range(len(case["streams"])) if o["obs"][ci]["seeds"][i] != res["obs"][ci]["seeds"][i]), 0)
-                s = case["streams"][si]
-                r = case["calls"][ci].get("all", case["calls"][ci].get("r"))
-                small = {"updater": case["updater"], "streams": [dict(s, cur=s["orig"])], "calls": [{"all": r}]}
-                try:
-                    outs = run_children([small], hashseeds)
-                    got = {hs: o2[0]["obs"][0] for hs, o2 in zip(hashseeds, outs)}
-                except Exception:
-                    got = {}
-                if len({json.dumps(v) for v in got.values()}) > 1:
-                    note("seed-differs-between-processes",
-                         f"stream {s['name']!r} with original seed {s['orig']}, replication {r}, updater {case['updater']['kind']}: "
-                         f"seed() after update_seeds per PYTHONHASHSEED = { {hs: v['seeds'][0] for hs, v in got.items()} }",
-                         {"case": small, "observations_per_PYTHONHASHSEED": got,
-                          "how": "PYTHONHASHSEED=<n> python harness/c13_impl.py < [case] with PYTHONPATH=/repo/src"})
-                else:
-                    note("seed-differs-between-processes",
-                         f"configuration #{idx} gives different seeds in processes with PYTHONHASHSEED {hashseeds[0]} and {hashseeds[k]}",
-                         {"case": case, "observations": {hashseeds[0]: res["obs"], hashseeds[k]: o["obs"]}})
-                break
-        # (2)-(5) clauses on one configuration
-        for sig, what in oracle_case(case, res):
-            note(sig, what, {"case": case, "observations": res["obs"], "PYTHONHASHSEED": hashseeds[0],
-                             "how": "python harness/c13_impl.py < [case] with PYTHONPATH=/repo/src"})
-        # permuted order / other current seeds: same seeds by name
-        if idx in sibling_of:
-            a, b = cases[sibling_of[idx]], case
-            ra, rb = by_name_after_success(a, base[sibling_of[idx]]), by_name_after_success(b, res)
-            for ci in ra:
-                if ci not in rb:
-                    note("refusal-depends-on-stream-order", f"call #{ci} accepted in one listing order, refused in another",
-                         {"case": a, "permuted": b}); break
-                if ra[ci] != rb[ci]:
-                    diff = [k for k in ra[ci] if ra[ci][k] != rb[ci].get(k)]
-                    note("seed-depends-on-order-or-current-seed",
-                         f"call #{ci}: streams {diff} get different seeds when the same configuration is listed in another order "
-                         f"with other current seeds: {[(ra[ci][k], rb[ci].get(k)) for k in diff]}",
-                         {"case": a, "permuted": b, "observations": base[sibling_of[idx]]["obs"], "observations_permuted": res["obs"]})
+
+    def analyse(cases, sibling_of, per_child, hist, nontriv):
+        """evaluate the clauses of the property on the observations of one batch of configurations"""
+        base = per_child[0]
+        for idx, case in enumerate(cases):
+            res = base[idx]
+            u = case["updater"]
+            hist["simple" if u["kind"] == "simple" else "table_fb_" + u["fb"]["kind"]] += 1
+            for c, ob in zip(case["calls"], res["obs"]):
+                hist["update_seeds" if "all" in c else "update_seed"] += 1
+                hist["accepted" if ob["exc"] is None else ob["exc"] if ob["exc"] in ("TypeError", "ValueError") else "other_exception"] += 1
+            # (1) the same in every process
+            for k in range(1, len(per_child)):
+                o = per_child[k][idx]
+                if o["obs"] != res["obs"] or o["draws"] != res["draws"]:
+                    ci = next(i for i in range(len(res["obs"])) if o["obs"][i] != res["obs"][i]) if o["obs"] != res["obs"] else 0
+                    si = next((i for i in range(len(case["streams"])) if o["obs"][ci]["seeds"][i] != res["obs"][ci]["seeds"][i]), 0)
+                    s = case["streams"][si]
+                    r = case["calls"][ci].get("all", case["calls"][ci].get("r"))
+                    small = {"updater": case["updater"], "streams": [dict(s, cur=s["orig"])], "calls": [{"all": r}]}
+                    try:
+                        outs = run_children([small], hashseeds)
+                        got = {hs: o2[0]["obs"][0] for hs, o2 in zip(hashseeds, outs)}
+                    except Exception:
+                        got = {}
+                    if len({json.dumps(v) for v in got.values()}) > 1:
+                        note("seed-differs-between-processes",
+                             f"stream {s['name']!r} with original seed {s['orig']}, replication {r}, updater {case['updater']['kind']}: "
+                             f"seed() after update_seeds per PYTHONHASHSEED = { {hs: v['seeds'][0] for hs, v in got.items()} }",
+                             {"case": small, "observations_per_PYTHONHASHSEED": got,
+                              "how": "PYTHONHASHSEED=<n> python harness/c13_impl.py < [case] with PYTHONPATH=/repo/src"})
+                    else:
+                        note("seed-differs-between-processes",
+                             f"configuration #{idx} gives different seeds in processes with PYTHONHASHSEED {hashseeds[0]} and {hashseeds[k]}",
+                             {"case": case, "observations": {hashseeds[0]: res["obs"], hashseeds[k]: o["obs"]}})
                     break
-        # history-free within a case: the same replication number twice
-        done = {}
-        for ci, (c, ob) in enumerate(zip(case["calls"], res["obs"])):
-            if "all" in c and ob["exc"] is None and not isinstance(c["all"], dict):
-                key = int(c["all"])
-                if key in done and done[key][1] != ob["seeds"]:
-                    note("seed-depends-on-earlier-updates",
-                         f"replication {key} requested twice (calls #{done[key][0]} and #{ci}) gives {done[key][1]} then {ob['seeds']}",
-                         {"case": case, "observations": res["obs"]})
-                done[key] = (ci, ob["seeds"])
-        if reached_hash_path(case, res):
-            nontriv.add(json.dumps(case, sort_keys=True))
+            # (2)-(5) clauses on one configuration
+            for sig, what in oracle_case(case, res):
+                note(sig, what, {"case": case, "observations": res["obs"], "PYTHONHASHSEED": hashseeds[0],
+                                 "how": "python harness/c13_impl.py < [case] with PYTHONPATH=/repo/src"})
+            # permuted order / other current seeds: same seeds by name
+            if idx in sibling_of:
+                a, b = cases[sibling_of[idx]], case
+                ra, rb = by_name_after_success(a, base[sibling_of[idx]]), by_name_after_success(b, res)
+                for ci in ra:
+                    if ci not in rb:
+                        note("refusal-depends-on-stream-order", f"call #{ci} accepted in one listing order, refused in another",
+                             {"case": a, "permuted": b}); break
+                    if ra[ci] != rb[ci]:
+                        diff = [k for k in ra[ci] if ra[ci][k] != rb[ci].get(k)]
+                        note("seed-depends-on-order-or-current-seed",
+                             f"call #{ci}: streams {diff} get different seeds when the same configuration is listed in another order "
+                             f"with other current seeds: {[(ra[ci][k], rb[ci].get(k)) for k in diff]}",
+                             {"case": a, "permuted": b, "observations": base[sibling_of[idx]]["obs"], "observations_permuted": res["obs"]})
+                        break
+            # history-free within a case: the same replication number twice
+            done = {}
+            for ci, (c, ob) in enumerate(zip(case["calls"], res["obs"])):
+                if "all" in c and ob["exc"] is None and not isinstance(c["all"], dict):
+                    key = int(c["all"])
+                    if key in done and done[key][1] != ob["seeds"]:
+                        note("seed-depends-on-earlier-updates",
+                             f"replication {key} requested twice (calls #{done[key][0]} and #{ci}) gives {done[key][1]} then {ob['seeds']}",
+                             {"case": case, "observations": res["obs"]})
+                    done[key] = (ci, ob["seeds"])
+            if reached_hash_path(case, res):
+                nontriv.add(json.dumps(case, sort_keys=True))
+
+    analyse(cases, sibling_of, per_child, hist, nontriv)
+
     run.cov["evaluations"] = len(cases) * len(hashseeds)
     run.cov["configurations"] = len(cases)
     run.cov["child_interpreters_PYTHONHASHSEED"] = hashseeds
@@ -474,6 +498,23 @@ def main(tier: str) -> int:
     run.cov["permuted_sibling_pairs"] = len(sibling_of)
     for idx in range(n_corpus, min(n_corpus + 2, len(cases))):
         run.add_sample({"case": cases[idx], "observations": base[idx]["obs"]})
+
+    # ---- the regenerated model no longer equals the proved one: look harder for a concrete failing input
+    tie = tree.broken_for(PID)
+    if tie and not failures:
+        rng2 = random.Random(run.seed * 7919 + 1313)
+        cases2, sibling2 = [], {}
+        while len(cases2) < n_random:
+            c = gen_case(rng2)
+            cases2.append(c)
+            if rng2.random() < 0.4:
+                sibling2[len(cases2)] = len(cases2) - 1
+                cases2.append(permuted_sibling(rng2, c))
+        try:
+            analyse(cases2, sibling2, run_children(cases2, hashseeds), dict.fromkeys(hist, 0), set())
+        except Exception:  # noqa
+            pass
+        run.cov["extra_configurations_searched_after_broken_tie"] = len(cases2)
 
     for sig, (what, replay) in failures.items():
         run.violation(sig, what, replay)
@@ -509,6 +550,9 @@ def main(tier: str) -> int:
                          if mism[0] not in mism_pinned else ""),
                       {"case": case, "observations": base[mism[0]]["obs"], "relation": "Streams.Seeds.case_ok",
                        "mismatching_cases": len(mism)}, found_input=False)
+    if tie and not failures:
+        L.report_broken_tie(run, tree, "the clause-by-clause oracle on the observations of every child interpreter",
+                            {"model_impl_mismatching_cases": len(mism)})
     if not proofs_ok and not run.violations:
         run.violation("proof-broken", "a C13 proof obligation no longer checks: " + getattr(run, "proof_log", "")[-800:],
                       {"theorems": run.cov.get("theorems")}, found_input=False)
